@@ -57,13 +57,13 @@ partial def annot (w : World) (cfg : Cfg) : Ty → Option Obj → Err → Sexp
   | .opt t, o, e => annot w cfg t o e
   | .wrap _ t, o, e => annot w cfg t o e
   | .coll _ t, o, .ive es =>
-      let items := (o.bind iterItems).getD []
+      let items := (o.bind allItems).getD []
       .list (.atom "ive" :: es.map (fun (n, e) => match n with
         | some (.int i) => .list [idxSx n, .atom "elem", annot w cfg t items[i.toNat]? e]
         | some _ => .list [idxSx n, .atom "?", plainTree e]
         | Option.none => .list [idxSx n, .atom "-", plainTree e]))
   | .tupleHet ts, o, .ive es =>
-      let items := (o.bind iterItems).getD []
+      let items := (o.bind allItems).getD []
       .list (.atom "ive" :: es.map (fun (n, e) => match n with
         | some (.int i) => (match ts[i.toNat]? with
             | some t => .list [idxSx n, .atom "elem", annot w cfg t items[i.toNat]? e]
